@@ -326,7 +326,7 @@ def rule_cli_exit(em, rep, rid, listener_classes):
                 rep.violation(rid, key, 'the exception raised for a syntax error is not a CompilerError: the command line shows a '
                               'traceback instead of file:line:column and the documented error', m.loc(r))
     str_m = ce.methods.get('__str__')
-    if str_m is not None and all(w in norm(str_m.node) for w in ('filename', 'line', 'column')):
+    if str_m is not None and all(w in norm(em.view(str_m).node) for w in ('filename', 'line', 'column')):
         rep.ok(rid, 'errors.CompilerError.__str__', 'formats filename:line:column:message', ce.loc())
     else:
         rep.violation(rid, 'errors.CompilerError.__str__', 'the error text lacks file name, line or column', ce.loc())
